@@ -52,6 +52,12 @@ def _tmpdir() -> str:
     return TMP[0]
 
 
+def cleanup() -> None:
+    if TMP[0] is not None:
+        shutil.rmtree(TMP[0], ignore_errors=True)
+        TMP[0] = None
+
+
 def _hook_open() -> None:
     import pane.io as pio
     if getattr(pio, '_pv_hooked', False):
